@@ -8,21 +8,28 @@
 (* check, the set of operator address byte patterns).                                   *)
 EXTENDS Valset, Json
 CONSTANTS Family, EmitAt, MaxOps, StakeVecs, Amounts, DTs, Jumps, GenVersions, MaxHeight, FocusVals
-VARIABLE hist
+VARIABLES hist,
+          mark      \* swap family: some validator unjailed while ANOTHER one had been jailed in the same or the previous block
 
 RealSentences == <<60, 300, 900, 3600, 86400>>
 Vecs4 == {<<1, 1, 1, 1>>, <<7, 1, 1, 1>>, <<1, 2, 3, 7>>, <<3, 3, 2, 1>>, <<2, 2, 1, 1>>}
 Vecs4Cover == {<<1, 1, 1, 1>>, <<1, 2, 3, 7>>}
 VecsProj == {<<1, 1, 1, 1>>, <<3, 1, 1, 1>>}
-Vecs5 == {<<1, 1, 1, 1, 1>>, <<10, 1, 1, 1, 1>>, <<2, 2, 2, 1, 1>>, <<1, 1, 1, 1, 3>>}
+\* share of bonded power of validator 1 (4 bonded of 5): exactly 25%, 24.5%, 25.49% (26 of 102), 26.47% (27 of 102)
+Vecs5Share == {<<25, 25, 25, 25, 1>>, <<25, 26, 25, 26, 1>>, <<26, 25, 25, 26, 1>>, <<27, 25, 25, 25, 1>>}
+Vecs5 == {<<1, 1, 1, 1, 1>>, <<10, 1, 1, 1, 1>>, <<2, 2, 2, 1, 1>>, <<1, 1, 1, 1, 3>>} \cup Vecs5Share
 Vecs5Cover == {<<1, 1, 1, 1, 1>>}
 Vecs5Lone == {<<10, 1, 1, 1, 1>>}
 DTsSnap == {1, 2000, 2600000}
 JumpsCover == {<<9, 2>>, <<50, 2>>, <<2000, 2>>}     \* 1 + 9 = 10: a keep-alive that expires exactly at a liveness check
 JumpsSim == {<<1, 2>>, <<9, 2>>, <<10, 2>>, <<29, 2>>, <<31, 2>>, <<60, 2>>, <<1990, 2>>, <<2000, 2>>, <<1, 600>>, <<1, 4000>>, <<1, 90000>>, <<30, 60>>}
+\* swap family: one validator is jailed (liveness check or message) and ANOTHER one unjails in the same / the next block
+JumpsSwap == {<<1, 2>>, <<9, 2>>, <<40, 2>>, <<99, 2>>}
 JumpsLadder == {<<1, 70>>, <<1, 310>>, <<1, 910>>, <<1, 3650>>, <<1, 90000>>, <<31, 2>>}
 
-H(a, r) == hist' = Append(hist, [act |-> a, args |-> r])
+JustJailed(x) == jailed[x] /\ jhist[x] # <<>> /\ now - jhist[x][Len(jhist[x])].at <= 2
+H(a, r) == /\ hist' = Append(hist, [act |-> a, args |-> r])
+           /\ mark' = (mark \/ (a = "Unjail" /\ last'.ok /\ \E x \in Vals \ {r.v} : JustJailed(x)))
 RECURSIVE SetToSeq(_)
 SetToSeq(T) == IF T = {} THEN <<>> ELSE LET x == MinOf(T) IN <<x>> \o SetToSeq(T \ {x})
 
@@ -51,19 +58,22 @@ GNext ==
     [] Family = "proj"   -> GBuild \/ GSetOnChain \/ GPublish \/ GRegister \/ GActivate \/ GStakingEB
     [] Family = "alive"  -> GBlocks \/ GKeepAlive \/ GJail \/ GUnjail \/ GSetMin
     [] Family = "ladder" -> GBlocks \/ GJailL \/ GUnjailL
+    [] Family = "swap"   -> GBlocks \/ GJailL \/ GUnjailL
     [] OTHER -> FALSE
 
 AllAccts == [v \in Vals |-> Chains]
 GInit == \E stk \in StakeVecs :
            /\ InitWith(stk, AllAccts, {}, InitStatus(stk))
+           /\ mark = FALSE
            /\ hist = <<[act |-> IF Family \in {"snap", "proj"} THEN "InitS" ELSE "InitK", args |-> [stakes |-> stk]]>>
 Last == hist[Len(hist)]
-GView == <<Last, stakingVars, snapVars, aliveVars, now>>
+GView == <<Last, mark, stakingVars, snapVars, aliveVars, now>>
 GConstr == Len(hist) <= MaxOps + 1
 EmitCond == /\ Len(hist) >= 4
             /\ \/ Family = "snap" /\ last.act \in {"Build", "Publish", "SetOnChain"}
                \/ Family = "proj" /\ last.act \in {"Build", "Publish"}
-               \/ Family \notin {"snap", "proj"} /\ last.act \in {"Blocks"}
+               \/ Family = "swap" /\ mark /\ last.act = "Blocks" /\ Last.args.n >= 40
+               \/ Family \notin {"snap", "proj", "swap"} /\ last.act \in {"Blocks"}
 GNextC == (IF EmitCond THEN PrintT(<<"HIST", ToJson(hist)>>) ELSE TRUE) /\ GNext
 \* simulate mode: emit histories of full length; keep-alive histories must end with time passing
 Emit == (Len(hist) = EmitAt + 1 /\ (Family \in {"snap", "proj"} \/ last.act = "Blocks")) => PrintT(<<"HIST", ToJson(hist)>>)
